@@ -38,6 +38,8 @@ func ReplayTraceWorld(c *vf.Ctx, raw json.RawMessage, menus func(model string) f
 		menu = MergedMenu3
 	case "expiry":
 		menu = ExpiryMenu
+	case "v1inblock":
+		menu = V1InBlockMenu
 	}
 	if menu == nil {
 		c.HarnessError("unknown model %q", tc.Model)
